@@ -6,9 +6,10 @@ cd "$(dirname "$0")"
 export GOFLAGS=-mod=mod GOPROXY=off GOSUMDB=off GOTOOLCHAIN=local
 mkdir -p lean/SfntV/Generated evidence
 (cd extract && go build -o /tmp/verif_extract_setup . && /tmp/verif_extract_setup /repo "$(pwd)/../lean/SfntV/Generated"; rm -f /tmp/verif_extract_setup)
-# root module importing everything that exists
-(cd lean && find SfntV -name '*.lean' | sort | sed -e 's/\.lean$//' -e 's#/#.#g' -e 's/^/import /' > SfntV.lean)
-(cd lean && lake build SfntV sfntv-driver)
+python3 gen_registry.py
+# build the property modules of every claimed property (the proof obligations) and the driver
+MODS=$(python3 -c "from checkcfg import PROPS; print(' '.join(sorted({m for p in PROPS.values() for m in p['modules']})))")
+(cd lean && lake build $MODS sfntv-driver)
 cp /repo/go.sum harness/go.sum
 (cd harness && go build -tags verif -o /dev/null .)
 echo setup ok
